@@ -36,6 +36,8 @@ pub struct PPage {
     /// None = NO_METADATA (the columns are the prepared statement's)
     pub cols: Option<Vec<PCol>>,
     pub new_id: bool,
+    /// the page's bytes end inside this row (rows `cut..` are unreadable); None = intact
+    pub cut: Option<usize>,
 }
 
 pub struct PCase {
@@ -74,17 +76,22 @@ pub fn parse_case(line: &str) -> Option<PCase> {
     let prepared = parse_cols(&segs[1].split_whitespace().collect::<Vec<_>>())?;
     let mut pages = Vec::new();
     for s in &segs[2..] {
-        let t: Vec<&str> = s.split_whitespace().collect();
+        let mut t: Vec<&str> = s.split_whitespace().collect();
+        let mut cut = None;
+        if t.len() >= 2 && t[t.len() - 2] == "cut" {
+            cut = Some(t[t.len() - 1].parse::<usize>().ok()?);
+            t.truncate(t.len() - 2);
+        }
         let rows: usize = t.first()?.parse().ok()?;
         if t.get(1) == Some(&"nometa") && t.len() == 2 {
-            pages.push(PPage { rows, cols: None, new_id: false });
+            pages.push(PPage { rows, cols: None, new_id: false, cut });
         } else {
             let new_id = match *t.get(1)? {
                 "0" => false,
                 "1" => true,
                 _ => return None,
             };
-            pages.push(PPage { rows, cols: Some(parse_cols(&t[2..])?), new_id });
+            pages.push(PPage { rows, cols: Some(parse_cols(&t[2..])?), new_id, cut });
         }
     }
     Some(PCase { target: hd[1].to_owned(), ext: hd[2] == "1", skip: hd[3] == "1", poll_all: hd[4] == "all", prepared, pages })
@@ -238,7 +245,7 @@ fn handler(script: Arc<Mutex<Script>>, min_conn: Arc<AtomicUsize>, ext: bool) ->
             let pos = s.pos;
             let (page, last) = match s.pages.get(pos) {
                 Some(p) => (p.clone(), pos + 1 >= s.pages.len()),
-                None => (PPage { rows: 0, cols: None, new_id: false }, true),
+                None => (PPage { rows: 0, cols: None, new_id: false, cut: None }, true),
             };
             let eff: Vec<PCol> = if pos < s.pages.len() { effective_cols(&s.prepared, &s.pages, pos, ext) } else { s.prepared.clone() };
             let first = s.next_row;
@@ -252,7 +259,15 @@ fn handler(script: Arc<Mutex<Script>>, min_conn: Arc<AtomicUsize>, ext: bool) ->
                 paging_state: if last { None } else { Some(vec![pos as u8 + 1]) },
                 new_metadata_id: if page.new_id && page.cols.is_some() { Some(vec![pos as u8 + 1; 16]) } else { None },
             };
-            vec![Action::Respond(RESP_RESULT, body_rows(&rm, &rows))]
+            let mut body = body_rows(&rm, &rows);
+            if let Some(cut) = page.cut {
+                if cut < rows.len() {
+                    // keep the announced row count, end the bytes two bytes into row `cut`
+                    let tail: usize = rows[cut..].iter().map(|r| r.iter().map(|c| 4 + c.as_ref().map(|b| b.len()).unwrap_or(0)).sum::<usize>()).sum();
+                    body.truncate(body.len() - tail + 2);
+                }
+            }
+            vec![Action::Respond(RESP_RESULT, body)]
         }
         _ => vec![Action::Respond(RESP_ERROR, body_error(0x2200, "invalid", &[]))],
     })
@@ -306,6 +321,7 @@ pub fn target_fits(target: &str, cols: &[PCol]) -> Option<bool> {
 enum Decoded {
     Vals(Vec<(String, CqlValue)>), // (column name or index, value) as the caller received them
     TypeErr,                        // a type-check error item (only with the poll-to-end consumer)
+    RawErr,                         // a row-deserialization error item (an unreadable row)
 }
 
 fn label(e: &NextRowError) -> String {
@@ -341,6 +357,8 @@ macro_rules! drive {
                             let l = label(&e);
                             if $poll_all && l == "TypeCheck" {
                                 out.push(Decoded::TypeErr); // keep polling: the stream is not fused by a type-check error
+                            } else if $poll_all && l == "err:RowDeserialization" {
+                                out.push(Decoded::RawErr);
                             } else {
                                 fin = l;
                                 break;
@@ -458,6 +476,8 @@ async fn run_case(case: &PCase, ctx: &mut Ctx) -> String {
 
     // ---- oracle: every delivered row against the columns of the page it came from ----
     let eff = |pi: usize| -> Vec<PCol> { effective_cols(&case.prepared, &case.pages, pi, case.ext) };
+    // a row without columns has no bytes: such a page cannot be truncated
+    let cut_of = |pi: usize| -> Option<usize> { if eff(pi).is_empty() { None } else { case.pages[pi].cut } };
     let mut page_of: Vec<usize> = Vec::new();
     for (pi, p) in case.pages.iter().enumerate() {
         for _ in 0..p.rows {
@@ -473,6 +493,14 @@ async fn run_case(case: &PCase, ctx: &mut Ctx) -> String {
         let cols = eff(pi);
         let vals = match item {
             Decoded::Vals(v) => v,
+            Decoded::RawErr => {
+                // only a row at / after the cut of its page is unreadable
+                let within: usize = k - page_of.iter().position(|&p| p == pi).unwrap();
+                if cut_of(pi).is_none_or(|c| within < c) {
+                    ctx.fail(format!("row {} of page {} is intact but the stream answered a row-deserialization error", k, pi));
+                }
+                continue;
+            }
             Decoded::TypeErr => {
                 // every item stands for one row (a refused row is consumed): the page it belongs to must not fit
                 if target_fits(&target, &cols) == Some(true) {
@@ -481,6 +509,13 @@ async fn run_case(case: &PCase, ctx: &mut Ctx) -> String {
                 continue;
             }
         };
+        {
+            let within: usize = k - page_of.iter().position(|&p| p == pi).unwrap();
+            if cut_of(pi).is_some_and(|c| within >= c) {
+                ctx.fail(format!("row {} of page {} lies behind the end of the page's bytes but was delivered", k, pi));
+                continue;
+            }
+        }
         if target_fits(&target, &cols) != Some(true) {
             ctx.fail(format!(
                 "reinterpretation: row {} of page {} (columns `{}`) was decoded as {} = {:?} although the page's own columns do not fit that type",
@@ -521,6 +556,15 @@ async fn run_case(case: &PCase, ctx: &mut Ctx) -> String {
                 ctx.fail(format!("the stream ended after {} of {} rows", out.len(), total));
             }
         }
+        "err:RowDeserialization" => match page_of.get(out.len()) {
+            Some(&pi) => {
+                let within: usize = out.len() - page_of.iter().position(|&p| p == pi).unwrap();
+                if cut_of(pi).is_none_or(|c| within < c) {
+                    ctx.fail(format!("row-deserialization error on an intact row of page {}", pi));
+                }
+            }
+            None => ctx.fail("row-deserialization error after the last row".to_owned()),
+        },
         other => ctx.fail(format!("unexpected end of the typed stream: {}", other)),
     }
     if fin == "ctor:TypeCheck" {
@@ -529,12 +573,16 @@ async fn run_case(case: &PCase, ctx: &mut Ctx) -> String {
         let mut rle = String::new();
         let mut i = 0;
         while i < out.len() {
-            let is_row = matches!(out[i], Decoded::Vals(_));
+            let tag = |d: &Decoded| match d {
+                Decoded::Vals(_) => "r",
+                Decoded::TypeErr => "e",
+                Decoded::RawErr => "x",
+            };
             let mut j = i;
-            while j < out.len() && matches!(out[j], Decoded::Vals(_)) == is_row {
+            while j < out.len() && tag(&out[j]) == tag(&out[i]) {
                 j += 1;
             }
-            rle.push_str(&format!("{}{}", if is_row { "r" } else { "e" }, j - i));
+            rle.push_str(&format!("{}{}", tag(&out[i]), j - i));
             i = j;
         }
         format!("seq={} fin={}", if rle.is_empty() { "-" } else { &rle }, fin)
